@@ -28,6 +28,15 @@ m("copy-no-wait-successors", ["C02", "C01"],
 					return ctx.Err()
 				}
 """, "				_ = done\n"))
+# a defect that depends on state kept across calls (package level): the violation shows in
+# the n-th call of a process only, so its scenario does not fail when replayed alone
+m("copy-state-kept-across-calls", ["C01"],
+  ("copy.go", """func Copy(ctx context.Context, src ReadOnlyTarget, srcRef string, dst Target, dstRef string, opts CopyOptions) (ocispec.Descriptor, error) {""", """var copyCalls int
+
+func Copy(ctx context.Context, src ReadOnlyTarget, srcRef string, dst Target, dstRef string, opts CopyOptions) (ocispec.Descriptor, error) {
+	if copyCalls++; copyCalls%40 == 0 {
+		return ocispec.Descriptor{}, nil
+	}"""))
 m("copy-close-done-on-failure", ["C02"],
   ("copy.go", """			if err == nil {
 				// mark the content as done on success
